@@ -17,7 +17,7 @@ PROP = dict(
           "non-trivial = two results whose file configuration differs. Iteration counts up to MaxInt64 (API unit) and long counts in texts; numbers built around the parser's boundaries (short mantissa x 10^15..45, integers 2^53..2^64 in full, prefixes of powers of five, 17-digit forms). Texts include lines of 4-60 KiB (1 in 40) and values at the top of the float range; a reader failure on an input whose lines are all short is a violation. Distinct = distinct case JSON."),
     assumptions=["benchfmt.Reader is a faithful inverse (checked independently by C02-C04)"],
     units=[
-        R("api", "A", "./c01", "TestC01API", (4000, 6), (100000, 16)),
-        R("text", "A", "./c01", "TestC01Text", (2000, 6), (50000, 16)),
+        R("api", "A", "./c01", "TestC01API", (4000, 12), (100000, 16)),
+        R("text", "A", "./c01", "TestC01Text", (2000, 10), (50000, 16)),
     ],
 )
